@@ -19,7 +19,8 @@
     prev(first) = period_start - 1, prev(next) = evaluation date of the cell before, prev < eval,
     one field list, values compatible as above (mono). *)
 From Coq Require Import ZArith List Bool.
-From Bermuda Require Import Model.Base Model.Basis Proofs.BasisEq Proofs.BasisTri Proofs.BasisP.
+From Bermuda Require Import Model.Base Model.Basis Proofs.BasisEq Proofs.BasisTri Proofs.BasisP
+     Proofs.BasisSpec.
 Import ListNotations.
 Local Open Scope Z_scope.
 
@@ -239,3 +240,32 @@ Example C04_refusals_nonvacuous :
       row_to_incremental std_desc (nth 0 (nth 0 ex_cum_rows []) c :: c' :: []) = Err TriangleError)
   /\ length ex_inc_row = 4%nat.
 Proof. vm_compute. repeat split; try reflexivity. eexists; reflexivity. Qed.
+
+(* ------------------------------------------------------------------ 6. the executable specification *)
+(* [spec_cum] / [spec_inc] (Model/Basis.v) are the verdicts that coqc evaluates at every run on the
+   IMPLEMENTATION's outputs: structure of the increments, exact round trips, and TriangleError for
+   the first defective row -- each only under its Boolean hypothesis ([cum_hyp], [inc_hyp],
+   [first_bad_cum_is_keys], [first_bad_is_broken]) computed from the input triangle as printed,
+   rows obtained by the model's own grouping.  For EVERY cell list t the model's outputs satisfy
+   them: the verdicts demand nothing beyond the theorems above. *)
+Theorem C04_model_meets_spec_cum : forall t,
+  spec_cum t (to_incremental std_desc t)
+           (bind (to_incremental std_desc t) (to_cumulative std_desc)) = true.
+Proof. exact model_meets_spec_cum. Qed.
+Print Assumptions C04_model_meets_spec_cum.
+
+Theorem C04_model_meets_spec_inc : forall x,
+  spec_inc x (to_cumulative std_desc x)
+           (bind (to_cumulative std_desc x) (to_incremental std_desc)) = true.
+Proof. exact model_meets_spec_inc. Qed.
+Print Assumptions C04_model_meets_spec_inc.
+
+Example C04_spec_nonvacuous :
+  cum_hyp true (concat ex_cum_rows) = true /\ inc_hyp (concat ex_inc_rows) = true
+  /\ first_bad_is_broken [[nth_cell 0; nth_cell 1; nth_cell 3]] = true
+  /\ first_bad_is_broken [ex_inc_row; [nth_cell 1; nth_cell 2]] = true
+  /\ first_bad_cum_is_keys
+       [nth 2 ex_cum_rows [];
+        [cc default_meta 738156 738520 738520 512000 1024 0 0;
+         mkCell KCum 738156 738520 738885 None default_meta [(PL, VNum (Num true 1536))]]] = true.
+Proof. vm_compute. repeat split; reflexivity. Qed.
